@@ -31,12 +31,25 @@ class PathAbort(Exception):
 # --------------------------------------------------------------------------- explorer
 
 
+def hard_check(solver, *assumptions, timeout_ms=4000):
+    """solver.check; z3's soft ``timeout`` is set on the solver.  Hard wall-clock limits are enforced one level up:
+    every contract is verified in its own process which the driver terminates after a hard deadline (pyvc/cli.py)."""
+    try:
+        return solver.check(*assumptions)
+    except z3.Z3Exception:
+        return z3.unknown
+
+
 class Explorer:
     """Enumerates execution paths by re-execution with a decision prefix."""
 
     current: "Explorer | None" = None
 
-    def __init__(self, branch_timeout_ms=4000, max_paths=4000):
+    def __init__(self, branch_timeout_ms=4000, max_paths=4000, budget_s=None):
+        import os as _os
+        import time as _time
+
+        self.deadline = _time.time() + float(budget_s if budget_s is not None else _os.environ.get("PYVC_CONTRACT_BUDGET_S", "150"))
         self.prefix: list[bool] = []
         self.decisions: list[bool] = []
         self.pc: list = []  # path condition + assumptions (z3 BoolRefs)
@@ -83,17 +96,18 @@ class Explorer:
 
     def feasible(self, extra=None):
         if extra is not None:
-            r = self.solver.check(extra)
+            r = hard_check(self.solver, extra, timeout_ms=self.branch_timeout_ms)
         else:
-            r = self.solver.check()
+            r = hard_check(self.solver, timeout_ms=self.branch_timeout_ms)
         return r  # z3.sat / unsat / unknown
 
     def implied(self, f) -> bool:
         """pc => f  (cheap query; unknown counts as not implied)."""
+        self.check_budget()
         f = as_bool(f)
         if z3.is_true(f):
             return True
-        return self.solver.check(z3.Not(f)) == z3.unsat
+        return hard_check(self.solver, z3.Not(f), timeout_ms=self.branch_timeout_ms) == z3.unsat
 
     def prove(self, hyps, goal_fn, timeout_ms=None) -> bool:
         """pc /\\ hyps |= goal ?  ``goal_fn`` is called with the hypotheses already visible to range analysis."""
@@ -105,7 +119,7 @@ class Explorer:
             g = as_bool(goal_fn())
             if timeout_ms:
                 self.solver.set("timeout", timeout_ms)
-            r = self.solver.check(z3.Not(g))
+            r = hard_check(self.solver, z3.Not(g), timeout_ms=timeout_ms or self.branch_timeout_ms)
             return r == z3.unsat
         finally:
             self.solver.set("timeout", self.branch_timeout_ms)
@@ -116,7 +130,14 @@ class Explorer:
                     self.solver.add(f)
                 self._deferred = []
 
+    def check_budget(self):
+        import time as _time
+
+        if _time.time() > self.deadline:
+            raise Unsupported("per-contract time budget exhausted (undecided, not a violation)")
+
     def branch(self, cond) -> bool:
+        self.check_budget()
         cond = z3.simplify(as_bool(cond))
         if z3.is_true(cond):
             return True
@@ -126,8 +147,8 @@ class Explorer:
         if i < len(self.prefix):
             d = self.prefix[i]
         else:
-            rt = self.solver.check(cond)
-            rf = self.solver.check(z3.Not(cond))
+            rt = hard_check(self.solver, cond, timeout_ms=self.branch_timeout_ms)
+            rf = hard_check(self.solver, z3.Not(cond), timeout_ms=self.branch_timeout_ms)
             if rt == z3.unknown or rf == z3.unknown:
                 self.undecided_branches += 1
             t_ok = rt != z3.unsat
@@ -160,6 +181,7 @@ class Explorer:
             prefix = self.worklist.pop()
             if self.npaths >= self.max_paths:
                 raise Unsupported(f"path limit {self.max_paths} exceeded")
+            self.check_budget()
             self.begin_path(prefix)
             prev = Explorer.current
             Explorer.current = self
